@@ -1043,6 +1043,15 @@ def _child(sc: dict, conn, timeout: float = 40.0) -> None:
                 conn.send(r)
                 conn.close()
             finally:
+                if os.environ.get("VERIF_COVERAGE"):      # tools/coverage_map.py only: write the line-coverage data out by hand
+                    try:
+                        import coverage
+                        c = coverage.Coverage.current()
+                        if c is not None:
+                            c.stop()
+                            c.save()
+                    except Exception:
+                        pass
                 os._exit(0)      # no interpreter teardown: daemon client threads and a forked loop need none
 
     def watchdog() -> None:
